@@ -130,6 +130,7 @@ def run(run, outdir, seed, tier, BIN, SPEC):
         return out
     programs = {k: expand(programs[k]) for k in kinds}
     # a later call must be the first-use program with every initialiser skipped
+    extra_kinds = []
     for k in kinds:
         later = [[CODE[e[2]], e[3]] for e in P[k]["later"] if e[2] in CODE]
         first = programs[k]
@@ -143,7 +144,12 @@ def run(run, outdir, seed, tier, BIN, SPEC):
                 skipped.append(x[:2])
                 j += 1
         if skipped != [x[:2] for x in later]:
-            info["errors"].append("call %s: later-use events are not the first-use program with initialisers skipped" % k)
+            # a call whose later uses are not its first use minus the initialisers (state kept per thread, a
+            # cache, ...): both programs are given to the model as call kinds of their own - an
+            # over-approximation that the unchanged tree does not need
+            lk = k + "#later"
+            programs[lk] = expand(program(P[k]["later"]))
+            extra_kinds.append(lk)
     # 2. TLC on the extracted programs
     work = os.path.join(outdir, "tlc")
     shutil.rmtree(work, ignore_errors=True)
@@ -151,6 +157,7 @@ def run(run, outdir, seed, tier, BIN, SPEC):
     shutil.copy(os.path.join(SPEC, "Locks.tla"), work)
     # call kinds with identical lock programs are interchangeable for the model: keep one of each
     seen, group = {}, []
+    kinds = kinds + extra_kinds
     for k in (run.get("kinds") or kinds):
         key = json.dumps(programs[k])
         if key not in seen:
@@ -227,7 +234,7 @@ def run(run, outdir, seed, tier, BIN, SPEC):
         counts["locks:trace"] = 1
         m3 = re.search(r'"LOCKTRACE-REJECTED", "event", (\d+)', out3)
         fails.append({"kind": "trace", "op": "locks", "key": "locks:trace", "round": 0, "seed": seed,
-                      "detail": "recorded lock event %s violates mutual exclusion / once-only initialisation" % (m3.group(1) if m3 else "?"), "trace": []})
+                      "detail": "recorded event %s violates mutual exclusion / once-only initialisation / visibility of a completed registration: %s" % (m3.group(1) if m3 else "?", out3[out3.find("LOCKTRACE-REJECTED"):][:400]), "trace": []})
     elif "No error has been found" not in out3:
         info["errors"].append("TLC lock trace validation: " + out3[-800:])
     rep = {"behaviours": S["rounds"], "evaluations": S["calls"], "rounds": 1, "seed": seed,
